@@ -190,26 +190,10 @@ unsafe fn enter_model(_fd: libc::c_int, to_submit: libc::c_uint, _min: libc::c_u
     }
 }
 
-wk! {
-
-//@ prop: C03 C04
-//@ tier: quick
-//@ what: Shared::enter passes exactly the number of unsubmitted entries to the kernel and, when the kernel accepted them, offers whatever room there is afterwards to the futures waiting for a slot -- also when this very call consumed nothing but room had been made before (kernel thread, another thread's entry) -- the waiting future is woken once; ETIME/EINTR are not errors, other errnos are returned
-//@ bound: ring of 2 with 0..=2 unsubmitted entries before the call (symbolic), one waiter; kernel consumes 0..=unsubmitted entries; outcome in {Ok(consumed), ETIME, EINTR, EBADF} with the kernel contract "an error is only returned when nothing was consumed"
-//@ encodes: io_uring::Shared::enter; io_uring::Shared::wake_blocked_futures; io_uring::Shared::unsubmitted_submissions
-//@ stubs: crate::lock -> try_lock model; Waker -> direct calls; <core::io::CustomOwner as Drop>::drop -> no-op
-//@ assumes: io_uring_enter returns the number of consumed submissions when it consumed any (errors only when none were consumed)
-fn sm_enter_offers_room() {
-    let unsub0: u32 = kani::any();
-    kani::assume(unsub0 <= 2);
+fn enter_case(unsub0: u32, consumes: u32, outcome: u8) {
     k::sq_set(0, unsub0);
     let shared = k::build_shared(2, false, false);
     push_blocked(&shared, 1);
-    let consumes: u32 = kani::any();
-    kani::assume(consumes <= unsub0);
-    let outcome: u8 = kani::any();
-    kani::assume(outcome < 4);
-    kani::assume(outcome == 0 || consumes == 0);
     unsafe {
         ENTER_CONSUMES.v = consumes;
         ENTER_RC.v = consumes as i32;
@@ -236,12 +220,44 @@ fn sm_enter_offers_room() {
     if !room {
         assert!(k::wakes(0) == 0 && blocked(&shared).len() == 1, "still full: keeps waiting");
     }
+    std::mem::forget(r);
+    std::mem::forget(shared);
+}
+
+wk! {
+
+//@ prop: C03 C04
+//@ tier: quick
+//@ what: Shared::enter passes exactly the number of unsubmitted entries to the kernel and, when the kernel accepted them, offers whatever room there is afterwards to the futures waiting for a slot -- also when this very call consumed nothing but room had been made before (kernel thread, another thread's entry) -- the waiting future is woken once; ETIME/EINTR are not errors, other errnos are returned
+//@ bound: ring of 2 with 0..=2 unsubmitted entries before the call (symbolic), one waiter; kernel consumes 0..=unsubmitted entries; outcome in {Ok(consumed), ETIME, EINTR, EBADF} with the kernel contract "an error is only returned when nothing was consumed"
+//@ encodes: io_uring::Shared::enter; io_uring::Shared::wake_blocked_futures; io_uring::Shared::unsubmitted_submissions
+//@ stubs: crate::lock -> try_lock model; Waker -> direct calls; <core::io::CustomOwner as Drop>::drop -> no-op
+//@ assumes: io_uring_enter returns the number of consumed submissions when it consumed any (errors only when none were consumed)
+fn sm_enter_offers_room() {
+    let unsub0: u32 = kani::any();
+    kani::assume(unsub0 <= 2);
+    let consumes: u32 = kani::any();
+    kani::assume(consumes <= unsub0);
+    let outcome: u8 = kani::any();
+    kani::assume(outcome < 4);
+    kani::assume(outcome == 0 || consumes == 0);
+    enter_case(unsub0, consumes, outcome);
     kani::cover!(outcome == 0 && consumes == 2);
     kani::cover!(outcome == 0 && consumes == 0 && unsub0 == 1, "nothing consumed by this call but room exists");
     kani::cover!(outcome == 1);
     kani::cover!(outcome == 3);
-    std::mem::forget(r);
-    std::mem::forget(shared);
+}
+
+//@ prop: C03
+//@ tier: quick
+//@ what: concrete instance of sm_enter_offers_room (one unsubmitted entry of two, the kernel entry succeeds without consuming anything, one waiter): exists so that a counterexample has a cheap native replay (the symbolic harness's trace generation exceeds the memory cap)
+//@ bound: unsubmitted 1 of 2, consumes 0, success
+//@ encodes: io_uring::Shared::enter; io_uring::Shared::wake_blocked_futures
+//@ stubs: crate::lock -> try_lock model; Waker -> direct calls; <core::io::CustomOwner as Drop>::drop -> no-op
+//@ concrete: yes
+fn sm_enter_offers_existing_room() {
+    enter_case(1, 0, 0);
+    kani::cover!(true);
 }
 
 }
